@@ -526,3 +526,34 @@ def r04_8(ctx):
     of the buffer with the chunk, and finishing requires rem == 0 (= C06 R06.2; a lossy or partial comparison is a false success)"""
     import rules_io
     rules_io.r06_2(ctx)
+
+
+@rule("C04", "R04.9", floor=1)
+def r04_9(ctx):
+    """a Build output is complete before done() says so: for CtxOut::Build every Ok return of IOCtx::done lies past an explicit flush of the
+    BufWriter (a BufWriter that is merely dropped swallows the error of its last write: ENOSPC / EIO on the final chunk would be lost)"""
+    lib = ctx.lib
+    dn = body(ctx, "done")
+    if not dn:
+        return
+    FL = ("<std::io::BufWriter<W> as std::io::Write>::flush", "std::io::Write::flush", "std::io::BufWriter::<W>::into_inner")
+    fl = [bb for bb, t in calls_to(dn, FL)]
+    if not fl:
+        ctx.violation([dn.name, "no-flush"], "IOCtx::done no longer flushes the Build writer explicitly", site=ctx.site(dn, 0))
+        return
+    me = modes(ctx).mode_edges(dn)
+    not_build = {eid for eid, vs in me.items() if "Build" not in vs}
+    if not any("Build" in vs for vs in me.values()):
+        ctx.anchor_missing("a CtxOut::Build arm in IOCtx::done")
+        return
+    # with the other variants' edges, the flush and the explicit error returns cut, no return of done() may be left reachable: what the
+    # Build arm returns is the (decorated) result of the flush, or an error raised before it
+    cut = not_build | out_edges(dn, fl) | out_edges(dn, err_sites(dn))
+    rets = [bb for bb in C.live(dn) if dn.term(bb)["k"] == "return"]
+    bad = [bb for bb in rets if not C.guarded(dn, bb, cut)]
+    if bad:
+        ctx.violation([dn.name, "ok-without-flush"], "IOCtx::done can return for a Build output without flushing the writer (the last "
+                      "write error would be swallowed by Drop)", site=ctx.site(dn, bad[0]), witness=C.witness(dn, bad[0], cut))
+    else:
+        ctx.ok("Build: done() returns only past the explicit flush (or with an error raised before it)", site=ctx.site(dn, fl[0]))
+
